@@ -14,13 +14,19 @@ steps = d["prefix"]
 if not steps or steps[-1] != d["act"]:
     steps = steps + [d["act"]]
 ctx = vlib.Ctx(f["property"], "quick", 1)
-users, sess, topics = world.population(nu, spu)
-bj = world.behaviours_json([steps], users, sess, topics)
+root = len(sys.argv) > 5 and sys.argv[5] == "root"
+tnames = tuple(sys.argv[6].split(",")) if len(sys.argv) > 6 else ("g1", "p12")
+users, sess, topics = world.population(nu, spu, tnames)
+levels = {}
+if root:
+    ru, rs = "u%d" % (len(users) + 1), "s%d" % (len(sess) + 1)
+    users.append(ru); sess[rs] = ru; levels[ru] = "root"
+bj = world.behaviours_json([steps], users, sess, topics + ["sys"], levels=levels)
 tr, _ = world.replay(ctx, bj)
 recs = vlib.read_ndjson(tr)
 def m(x): return "".join(x) if isinstance(x, list) else x
 for r in recs[1:]:
-    a = {k: m(v) for k, v in r["act"].items() if k != "chan"}
+    a = {k: m(v) for k, v in r["act"].items() if not (k == "chan" and v is False)}
     print(r["i"], a, "->", r["reply"].get("code"))
 last, pre = recs[-1], recs[-2]
 t = last["act"].get("t", "g1")
